@@ -15,6 +15,11 @@ A step is a dict; "o" is the owner ("P" or "H"); handles are strings (by convent
   sql     dst view cols            session.sql("select <cols|*> from <view>")
   collect|count|show|schema|columns|sqltext src      actions
   bad     src kind                 an action that raises (missing column / missing view / bad join column)
+operations outside the Coq model's alphabet (compared between runs only):
+  table   dst view                 session.table(view)
+  unionbyname dst l r allow        l.unionByName(r, allowMissingColumns=allow)
+  csv     dst file chain kw        session.read[.option(k, v) | .options(**d) | .format(f)]*.csv(path, **kw)  /  .load(path) when kw == "load"
+  api     dst src name args        one call of the wider DataFrame API (see API below)
 """
 import io
 import json
@@ -28,6 +33,12 @@ TABLES = {
     "T3": ("c bigint, d bigint, e bigint", [(5, 6, 7), (1, 1, 1)]),
     "T4": ("b bigint, a bigint", [(2, 1), (9, 3)]),
     "T5": ("b bigint, z bigint, a bigint", [(2, 0, 1), (4, 0, 3)]),
+}
+
+FILES = {
+    "F1": "k,note\n1,x\n2,z\n",
+    "F2": "a;b\n1;NA\n3;4\n",
+    "F3": "p,q,r\n1,2,3\n4,5,6\n7,8,9\n",
 }
 
 UUID = re.compile(r"'([0-9a-f]{32})'")
@@ -66,6 +77,63 @@ def main():
 
     s = DuckDBSession()
     env = {}
+    import atexit
+    import shutil
+    import tempfile
+    fdir = []
+
+    def fpath(name):
+        if not fdir:
+            import os
+            d = os.environ.get("C18_FILES")      # one directory per check run, so that the path is the same in every process
+            if d and os.path.isdir(d):
+                fdir.append(d)
+            else:
+                d = tempfile.mkdtemp(prefix="c18_files_", dir="/var/tmp")
+                fdir.append(d)
+                atexit.register(shutil.rmtree, d, True)
+                for k, v in FILES.items():
+                    with open(d + "/" + k + ".csv", "w") as f:
+                        f.write(v)
+        return fdir[0] + "/" + name + ".csv"
+
+    def nodir(x):
+        return x.replace(fdir[0], "<DIR>") if fdir and isinstance(x, str) else x
+
+    def api(df, name, a):
+        if name == "withColumn":
+            return df.withColumn(a["new"], F.col(a["c"]) + 1)
+        if name == "withColumnRenamed":
+            return df.withColumnRenamed(a["c"], a["new"])
+        if name == "drop":
+            return df.drop(*a["cols"])
+        if name == "distinct":
+            return df.distinct()
+        if name == "orderBy":
+            return df.orderBy(*a["cols"])
+        if name == "limit":
+            return df.limit(a["n"])
+        if name == "selectstar":
+            return df.select("*")
+        if name == "groupby_agg_dict":
+            return df.groupBy(a["by"]).agg({c: f for c, f in a["aggs"]})
+        if name == "groupby_count":
+            return df.groupBy(*a["by"]).count()
+        if name == "agg_funcs":
+            return df.groupBy(*a["by"]).agg(*[getattr(F, f)(c).alias(f + "_" + c) for c, f in a["aggs"]])
+        if name == "fillna_dict":
+            return df.fillna({c: v for c, v in a["values"]})
+        if name == "dropna":
+            return df.dropna(subset=a["cols"])
+        if name == "dropDuplicates":
+            return df.dropDuplicates(a["cols"])
+        if name == "replace_dict":
+            return df.replace({k: v for k, v in a["map"]}, subset=a["cols"])
+        if name == "toDF":
+            return df.toDF(*a["names"])
+        if name == "select_exprs":
+            return df.select(*[(F.col(c) * 2).alias(n) for c, n in a["pairs"]])
+        raise ValueError("unknown api recipe " + name)
 
     def colref(r):
         q = r["q"]
@@ -148,6 +216,25 @@ def main():
                 env[st["dst"]] = env[st["l"]].join(env[st["r"]], on=cond, how=st.get("how", "inner"))
             elif op == "union":
                 env[st["dst"]] = env[st["l"]].union(env[st["r"]])
+            elif op == "unionbyname":
+                env[st["dst"]] = env[st["l"]].unionByName(env[st["r"]], allowMissingColumns=bool(st.get("allow")))
+            elif op == "table":
+                env[st["dst"]] = s.table(st["view"])
+            elif op == "api":
+                env[st["dst"]] = api(env[st["src"]], st["name"], st.get("args") or {})
+            elif op == "csv":
+                rd = s.read
+                for c in st.get("chain") or []:
+                    if c[0] == "option":
+                        rd = rd.option(c[1], c[2])
+                    elif c[0] == "options":
+                        rd = rd.options(**c[1])
+                    elif c[0] == "format":
+                        rd = rd.format(c[1])
+                if st.get("kw") == "load":
+                    env[st["dst"]] = rd.load(fpath(st["file"]))
+                else:
+                    env[st["dst"]] = rd.csv(fpath(st["file"]), **(st.get("kw") or {}))
             elif op == "view":
                 env[st["src"]].createOrReplaceTempView(st["name"])
             elif op == "sql":
@@ -169,11 +256,11 @@ def main():
                 ob["rows"] = list(env[st["src"]].columns)
             elif op == "sqltext":
                 df = env[st["src"]]
-                raw = df.sql(optimize=False, pretty=False)
+                raw = nodir(df.sql(optimize=False, pretty=False))
                 ob["raw"] = raw
                 ob["text"], ob["nuuid"] = canon_text(raw, "spark")
                 try:
-                    o = df.sql(pretty=False)
+                    o = nodir(df.sql(pretty=False))
                     ob["opt"], _ = canon_text(o, "spark")
                 except Exception as ex:
                     ob["opt"] = "RAISES:" + type(ex).__name__
@@ -208,7 +295,7 @@ def main():
             else:
                 raise ValueError("unknown op " + op)
         except Exception as ex:  # noqa
-            ob = {"ok": False, "err": type(ex).__name__, "msg": str(ex)[:160]}
+            ob = {"ok": False, "err": type(ex).__name__, "msg": nodir(str(ex))[:160]}
         if job.get("dump"):
             ob["regs"] = regs()
             d = st.get("dst")
